@@ -170,3 +170,7 @@ Proof. intros H. pose proof (rd32_be32 n H) as K. cbn in *. unfold rd32 in K. li
 
 Lemma Ok_inj {A} (a b : A) : Ok a = Ok b -> a = b.
 Proof. intros H. injection H as H. exact H. Qed.
+
+(** Go's nil slice ([None]) read as a byte string *)
+Definition obytes (o : option bytes) : bytes := match o with None => [] | Some b => b end.
+Definition nil_marker (o : option bytes) : bytes := match o with None => [x00] | Some _ => [x01] end.
